@@ -3,6 +3,7 @@ C08 driver: replays a twin-reader history on the model and evaluates the Spec pr
 -/
 import Otel.Base.Wire
 import Otel.C08.Oracle
+import Otel.C08.CbErr
 open Otel Otel.Wire Otel.C02 Otel.C08
 
 namespace Otel.C08.Drv
@@ -37,6 +38,10 @@ def parseOp : List String → Option Op
   | ["col"] => some .col
   | _ => none
 
+def parseXOp : List String → Option XOp
+  | ["cberr"] => some .cberr
+  | toks => (parseOp toks).map .op
+
 def splitBar (toks : List String) : List (List String) :=
   let (cur, acc) := toks.foldl (fun (p : List String × List (List String)) t =>
     if t == "|" then ([], if p.1.isEmpty then p.2 else p.1.reverse :: p.2) else (t :: p.1, p.2)) ([], [])
@@ -67,6 +72,11 @@ def renderMStream (delta : Bool) (st : MStream) : String :=
 def renderRecs (recs : List (Nat × Bool × List Stream)) : List String :=
   (flagRecs [] recs).map fun rc =>
     ";".intercalate (s!"{rc.1}:{if rc.2.1 then "D" else "C"}" :: rc.2.2.map (renderMStream rc.2.1))
+
+/-- the same with the error status of each collection in the header: `<cycle>:<D|C>[:e]` -/
+def renderRecsX (recs : List (Nat × Bool × List Stream)) (errs : List (Nat × Bool × Bool)) : List String :=
+  ((flagRecs [] recs).zip (errs.map (·.2.2) ++ List.replicate recs.length false)).map fun (rc, e) =>
+    ";".intercalate (s!"{rc.1}:{if rc.2.1 then "D" else "C"}{if e then ":e" else ""}" :: rc.2.2.map (renderMStream rc.2.1))
 
 /-! ### parsing the observed records -/
 
@@ -103,13 +113,16 @@ def parseOStream (s : String) : Option OStream :=
     | _ => none
   | _ => none
 
-def parseORec (s : String) : Option ORec :=
+/-- a record and whether the collection returned an error (`<cycle>:<D|C>[:e];…`) -/
+def parseORec (s : String) : Option (ORec × Bool) :=
   match s.splitOn ";" with
   | hd :: streams =>
-    match hd.splitOn ":" with
-    | [c, r] => do
+    let mk := fun (c r : String) (e : Bool) => do
       if r != "D" && r != "C" then none
-      pure { cycle := ← parseNat c, delta := r == "D", streams := ← streams.mapM parseOStream }
+      pure (({ cycle := ← parseNat c, delta := r == "D", streams := ← streams.mapM parseOStream } : ORec), e)
+    match hd.splitOn ":" with
+    | [c, r] => mk c r false
+    | [c, r, "e"] => mk c r true
     | _ => none
   | [] => none
 
@@ -122,13 +135,22 @@ def stepLine (_ : Unit) (toks : List String) : Unit × Option Verdict :=
     let r : Option Verdict := do
       let is ← (istr.splitOn ",").mapM parseInst
       let slots := parseSlots sstr
-      let ops ← (splitBar rest).mapM parseOp
-      let model := Sys.run is slots ops
-      let mstr := renderRecs model.recs
+      let xops ← (splitBar rest).mapM parseXOp
+      -- a callback error does not affect the data: the oracle and the theorems speak about the history without the
+      -- error script (`callback_error_does_not_affect_data`), the error status is compared separately
+      let ops := eraseErr xops
+      let xmodel := XSys.run is slots xops
+      let model := xmodel.sys
+      let mstr := renderRecsX model.recs xmodel.errs
       match obs.mapM parseORec with
       | none => pure { agree := false, spec := "FAIL", nontrivial := false, branches := "unparsed-observation", model := " ".intercalate mstr }
-      | some recs =>
-        let spec := oracle is slots ops recs
+      | some recsE =>
+        let raw := recsE.map (·.1)
+        -- the Sum field of points of instruments that do not collect a sum is not observed (see CbErr.lean)
+        let recs := normalizeNoSum is raw
+        let staleSum := !(recs == raw)
+        let errsOk := recsE.map (·.2) == xmodel.errs.map (·.2.2)
+        let spec := oracle is slots ops recs && pointsSelfConsistent recs
         let aggs := is.map mkAgg
         let reported := fun (p : Agg → Bool) => (List.range is.length).any fun j =>
           (match aggs[j]? with | some g => p g | none => false) &&
@@ -142,10 +164,14 @@ def stepLine (_ : Unit) (toks : List String) : Unit × Option Verdict :=
           tagIf (reported fun g => match g with | .expo _ => true | _ => false) "expo-histogram" ++
           tagIf (aggs.any fun g => match g with | .off => true | _ => false) "drop-or-incompatible" ++
           tagIf (ops.any fun o => match o with | .unreg _ => true | _ => false) "unregister" ++
-          tagIf (model.cycle > 2) "multi-cycle"
+          tagIf (model.cycle > 2) "multi-cycle" ++
+          tagIf (xmodel.errs.any (·.2.2)) "callback-error" ++
+          tagIf staleSum "nosum-stale-sum-ignored" ++
+          tagIf (model.recs.any fun rc => rc.2.2.any fun st => st.dt == .expo && st.pts.any fun p =>
+            match p.val with | .hist _ _ [n, _, ps] => n == 0 || ps == 0 | _ => false) "expo-one-sided"
         -- `agree` also ties the printed form to the structured form the theorems are about: when the implementation's
         -- line equals the model's, what was parsed from it must be `modelORecs` of the model's records
-        pure { agree := mstr == obs && recs == modelORecs model.recs, spec := if spec then "ok" else "FAIL",
+        pure { agree := (staleSum || mstr == obs) && errsOk && recs == modelORecs model.recs, spec := if spec then "ok" else "FAIL",
                nontrivial := model.recs.any (fun rc => !rc.2.2.isEmpty) && model.cycle > 1,
                branches := if tags.isEmpty then "-" else ",".intercalate tags,
                model := " ".intercalate mstr }
